@@ -35,6 +35,17 @@ R2 = {
     "C15_2": "detour histories (a link removed and re-added before the implicit-role questions)",
     "C15_3": "detour histories (reload from a store without role assignments before the implicit-role questions)",
     "C18_2": "bundled FileAdapter vs AsyncFileAdapter differential on histories ending in save_policy + load_policy",
+    "C01_5": "batch_enforce stream: batches of different requests that print alike (7 / '7' / an object printing 7), every rotation",
+    "C02_4": "a function registered again under the same name AFTER the enforcer has decided requests",
+    "C02_6": "role functions occurring only inside a rule-supplied sub-expression spliced in by eval() (fresh enforcer per scenario, context first / plain first)",
+    "C07_4": "clear_policy followed by adds in the priority histories",
+    "C07_5": "auto-build flag off + reload from a store that holds the rules in arrival order (the list adapter now mirrors the auto-save calls)",
+    "C12_5": "the enforcer's own save guard with filtered adapters that are not the bundled one (interface-based and duck-typed, in memory)",
+    "C12_6": "fields with commas inside braces in the generated policy files",
+    "C15_5": "detour histories: a reload rejected while the links are being built",
+    "C15_6": "detour histories: decisions asked, then the role managers swapped, then a grant and a revocation",
+    "C20_4": "load_model inside histories (policy invalidated, watcher and flags must stay)",
+    "C20_5": "AsyncEnforcer with a watcher whose operation-specific callbacks are plain functions; callbacks record malformed arguments instead of failing",
 }
 for sid in sorted(os.listdir(os.path.join(VERIF, "seeded"))):
     p = os.path.join(VERIF, "seeded", sid, "meta.json")
